@@ -691,7 +691,7 @@ static void add_pow_math_functions(boost::python::class_<FixedArray2D<T> > &c) {
     c
         .def("__pow__",&apply_array2d_array2d_binary_op<op_pow,T,T,T>)
         .def("__pow__",&apply_array2d_scalar_binary_op<op_pow,T,T,T>)
-        .def("__rpow__",&apply_array2d_scalar_binary_rop<op_rpow,T,T,T>)
+        .def("__rpow__",&apply_array2d_scalar_binary_op<op_rpow,T,T,T>)
         .def("__ipow__",&apply_array2d_array2d_ibinary_op<op_ipow,T,T>,return_internal_reference<>())
         .def("__ipow__",&apply_array2d_scalar_ibinary_op<op_ipow,T,T>,return_internal_reference<>())
         ;
